@@ -4,6 +4,9 @@ import json, os, subprocess, sys
 ROOT = os.path.dirname(os.path.dirname(os.path.abspath(__file__)))
 
 CLAIMED = {
+ "C01": ("exploration", "property-based testing (proptest): decrypt(encrypt(m)) round trip over generated parameter sets, entry points, levels and plaintexts, gated by a deterministic worst-case noise bound",
+         "Generated-input search over parameter sets (3 schemes, N=2..64 and a N=1024..8192 sub-check, 1..6 primes of 2..60 bits in any order, six plain-modulus kinds, special-prime flag), 13 encryption entry points (pk, sk, seed-compressed + expanded, explicit generators, zero encryptions at every level) and boundary-biased plaintexts. BFV/BGV: exact equality with the input polynomial; CKKS: within an analysed worst-case tolerance. Equality is asserted only when the deterministic fresh-noise bound (2^6 margin) is below Q/2, so no alarm can come from unlucky noise; metadata and validity of every ciphertext are checked unconditionally.",
+         "Trusted: noise model of DESIGN.md §4 (ternary secret/mask, |e|<=21), CKKS tolerance incl. the decoder's word-wise negative-coefficient conversion; hook H2 only makes library randomness replayable.", "DESIGN.md §6 C01"),
  # id: (category, technique, level text, level note, design ref)
  "C08": ("exploration", "property-based testing (proptest) against u128/bigint reference + exhaustive enumeration of all moduli < 2^7",
          "Generated-input search: every public word-level modular primitive and multi-word helper is compared with native u128 / in-house big-integer arithmetic on boundary-biased random operands (quick: 0.8M cases) and exhaustively for all moduli below 128 with all operand pairs. Exact-value oracle, so any disagreement is a violation; this is the property PBT decides best.",
